@@ -34,11 +34,25 @@ class L1:
     def T(self, n):
         return self.prog.T(E + n)
 
+    COORDS = {"Point": ("x", "y", "z", "t"), "projP1xP1": ("X", "Y", "Z", "T"), "projP2": ("X", "Y", "Z"), "projCached": ("YplusX", "YminusX", "Z", "T2d"),
+              "affineCached": ("YplusX", "YminusX", "T2d")}
+
+    def coord_index(self, tname):
+        """positions of the coordinate fields in the struct as declared in the current source (by field name); any other
+        field (padding markers, or state a change may have added) keeps its zero value in harness-built objects"""
+        fields = self.T(tname).u.fields
+        names = [f["name"] for f in fields]
+        want = self.COORDS[tname]
+        if not all(n in names for n in want):
+            raise X.ExecError("struct %s no longer has the coordinate fields %s (has %s)" % (tname, want, names))
+        return [names.index(n) for n in want]
+
     def obj(self, path, tname, polys, name=""):
-        cells = [Abs(q, False) for q in polys]
-        if tname == "Point":
-            cells = [[]] + cells
-        return X.Ptr(self.ex.new_obj(path, self.T(tname), name=name, init=cells))
+        oid = self.ex.new_obj(path, self.T(tname), name=name)
+        cells = path.heap[oid][0]
+        for i, q in zip(self.coord_index(tname), polys):
+            cells[i] = Abs(q, False)
+        return X.Ptr(oid)
 
     def zero_obj(self, path, tname):
         return X.Ptr(self.ex.new_obj(path, self.T(tname)))
@@ -49,9 +63,7 @@ class L1:
 
     def read(self, path, ptr, tname):
         c = path.heap[ptr.obj][0]
-        if tname == "Point":
-            c = c[1:]
-        return [x.v for x in c]
+        return [c[i].v for i in self.coord_index(tname)]
 
     def call1(self, fname, args, path):
         ps = self.ex.call(fname, args, path)
@@ -111,7 +123,46 @@ def returning_paths(l1, fname, args, path, label):
     bad = [p for p in ps if p.outcome[0] != "ret"]
     ob = l1.chk.add(Ob("%s: returns normally on every path (%d path(s))" % (label, len(ps)), "unsat" if ps and not bad else "sat", 0, [fname], "ring mode", detail=str([p.outcome for p in bad][:2])))
     good = [p for p in ps if p.outcome[0] == "ret"]
+    # equalities established on each path (Element.Equal tests that are true there): the native replays derive from them
+    # the representations of valid points on which this path fires (sym/witness.py)
+    if len(good) > 1:
+        for p in good:
+            polys = path_eq_polys(p)
+            if polys:
+                l1.chk.extra.setdefault("path_eq_polys", {}).setdefault(label, []).append(polys)
     return ob, [("" if len(good) == 1 else " [path %d]" % i, p) for i, p in enumerate(good)]
+
+
+def path_eq_polys(r):
+    import z3
+    out = []
+    for h in r.dstate.get("hyp", []):
+        if h[0] == "eq":
+            so = z3.Solver()
+            for c in r.pc:
+                so.add(c)
+            so.add(z3.Not(h[2]))
+            if so.check() == z3.unsat:
+                out.append(h[1])
+    return out
+
+
+def witness_points(chk, base, label, suffix="1", points=None):
+    """raw representations (as driver slot strings, with their affine point) of valid points satisfying the equalities of
+    some path of `label` - candidates for the native replay"""
+    from . import witness, ptreplay, ref
+    dv = base.global_val(E + "d")
+    dval = sum(int(l) << (51 * k) for k, l in enumerate(dv)) % ref.P
+    names = tuple(c + suffix for c in "XYZT")
+    out = []
+    for polys in chk.extra.get("path_eq_polys", {}).get(label, []):
+        try:
+            for q in witness.scaling_witnesses(polys, dval, chk.seed, names=names, points=points):
+                zi = ref.inv(q[2])
+                out.append((ptreplay.fmt_pt([ref.limbs_of(c) for c in q]), (q[0] * zi % ref.P, q[1] * zi % ref.P)))
+        except Exception as e:
+            chk.note_inconclusive("witness search for %s failed: %r" % (label, e))
+    return out
 
 
 def law(P1, P2, d, sign=1):
